@@ -26,7 +26,7 @@
     The tree-API scenarios (create, add helpers, references, duplicate, replace by key, set
     valuestring, bulk constructors) are at the end of the file. *)
 From CJ Require Import Base Dbl Tree LibcNum LibcPrint ParseDefs ParseSafe ParseEntry PrintDefs PrintProofs
-  PrintFail PrintFailExt PrintFailParse.
+  PrintFail PrintFailExt PrintFailParse PrintFailParseExt.
 Local Open Scope Z_scope.
 
 (** ------------------------------------------------------------------ printers *)
@@ -226,6 +226,58 @@ Theorem C08_parse_string_clean :
 Proof. exact parse_string_clean. Qed.
 Print Assumptions C08_parse_string_clean.
 
+(* the schedule is consulted only at the requests the call makes (cf. C08_print_schedule_prefix) *)
+Theorem C08_parse_length_schedule_prefix :
+  forall strtod o1 o2 content len rnt r,
+    cJSON_ParseWithLengthOpts strtod o1 content len rnt = Ok r ->
+    forall N, (forall k, (k < N)%nat -> o2 k = o1 k) -> (pr_requests r <= N)%nat ->
+    cJSON_ParseWithLengthOpts strtod o2 content len rnt = Ok r.
+Proof. exact parse_length_ext. Qed.
+Print Assumptions C08_parse_length_schedule_prefix.
+
+Theorem C08_parse_string_schedule_prefix :
+  forall strtod o1 o2 content rnt r,
+    cJSON_ParseWithOpts strtod o1 content rnt = Ok r ->
+    forall N, (forall k, (k < N)%nat -> o2 k = o1 k) -> (pr_requests r <= N)%nat ->
+    cJSON_ParseWithOpts strtod o2 content rnt = Ok r.
+Proof. exact parse_string_ext_entry. Qed.
+Print Assumptions C08_parse_string_schedule_prefix.
+
+(* "completes normally": when none of the requests the call made was refused, the whole result (tree, end
+   position, error position, ledger, requests) is that of the failure-free run, which C02/C03/C10 characterise *)
+Theorem C08_parse_length_unrefused :
+  forall strtod oracle content len rnt r,
+    cJSON_ParseWithLengthOpts strtod oracle content len rnt = Ok r ->
+    (forall k, (k < pr_requests r)%nat -> oracle k = false) ->
+    cJSON_ParseWithLengthOpts strtod never_fails content len rnt = Ok r.
+Proof. exact parse_length_unrefused. Qed.
+Print Assumptions C08_parse_length_unrefused.
+
+Theorem C08_parse_string_unrefused :
+  forall strtod oracle content rnt r,
+    cJSON_ParseWithOpts strtod oracle content rnt = Ok r ->
+    (forall k, (k < pr_requests r)%nat -> oracle k = false) ->
+    cJSON_ParseWithOpts strtod never_fails content rnt = Ok r.
+Proof. exact parse_string_unrefused. Qed.
+Print Assumptions C08_parse_string_unrefused.
+
+(* a result that differs from the failure-free run's (e.g. NULL on an acceptable text) has a refused request *)
+Theorem C08_parse_length_failure_has_cause :
+  forall strtod oracle content len rnt r r0,
+    cJSON_ParseWithLengthOpts strtod oracle content len rnt = Ok r ->
+    cJSON_ParseWithLengthOpts strtod never_fails content len rnt = Ok r0 ->
+    r <> r0 -> exists k, (k < pr_requests r)%nat /\ oracle k = true.
+Proof. exact parse_length_failure_has_cause. Qed.
+Print Assumptions C08_parse_length_failure_has_cause.
+
+Theorem C08_parse_string_failure_has_cause :
+  forall strtod oracle content rnt r r0,
+    cJSON_ParseWithOpts strtod oracle content rnt = Ok r ->
+    cJSON_ParseWithOpts strtod never_fails content rnt = Ok r0 ->
+    r <> r0 -> exists k, (k < pr_requests r)%nat /\ oracle k = true.
+Proof. exact parse_string_failure_has_cause. Qed.
+Print Assumptions C08_parse_string_failure_has_cause.
+
 (** ------------------------------------------------------------------ non-vacuity *)
 
 (* the libc hypothesis is satisfiable: the guarded reference conversions *)
@@ -263,3 +315,12 @@ Theorem C08_parse_nonvacuous :
   (exists r t, nvf_parse 5 = Ok r /\ pr_tree r = Some t /\ pr_live r = 4 /\ blocks t = 4 /\ pr_requests r = 4%nat).
 Proof. exact C08_parse_nonvacuous_proof. Qed.
 Print Assumptions C08_parse_nonvacuous.
+
+(* sensitivity: [print] with the final shrink as seeded change C08_A writes it (buffer pointer cleared before the
+   result of the realloc is checked) returns NULL with the print buffer still allocated when that request is
+   refused — C08_print_ledger is false of that code *)
+Theorem C08_A_violates_ledger :
+  print_C08_A guarded_fmt_d guarded_fmt_g15 guarded_fmt_g17 sscanf_lg (fail_kth 3) (fun _ => 165) nvf_tree false
+  = Ok (mkprr None 1 3).
+Proof. exact C08_A_violates_ledger_proof. Qed.
+Print Assumptions C08_A_violates_ledger.
